@@ -197,6 +197,18 @@ func VerifC18Validate() {
 		}
 	}
 	nd.Assert(h.F == s, "C18: validation sees the bound value")
+	if hasValidate && nd.Param("UNDEFINED", 1) == 1 && ci == 0 && nd.Bool() {
+		// a validate argument naming a rule the validator does not know: start-up fails with an error, it does not panic
+		bad := component_definition.NewProperty(meta.Fields[0], component_definition.PropertyTypeConfiguration, tagName, "k,validate=nosuchrule")
+		var verr error
+		panicked := nd.Catch(func() {
+			_, verr = vd.PostProcessProperties([]*component_definition.Property{bad}, h, "h")
+		})
+		nd.Assert(!panicked, "C09: a failing validation makes start-up return an error - it does not panic")
+		nd.Assert(verr != nil, "C18: a constraint that cannot be checked makes start-up fail")
+		nd.Cover("undefined validation rule")
+		return
+	}
 	_, err := vd.PostProcessProperties(props, h, "h")
 	// oracle: the validator's own verdict on the bound value
 	verdict := validator.New(validator.WithRequiredStructEnabled()).Var(h.F, constraint)
